@@ -1,7 +1,7 @@
 """C16 -- the single-threaded (unsync) mpsc channel dfir_rs::util::unsync::mpsc.
 Jobs: (1) TLC exhaustive on MpscImpl (implementation-shaped model x Mpsc monitor): all C16
-invariants + liveness without spurious polls; safety + the two wake rules that hold with
-spurious polls and close_this_sender; (2) TLC generator runs (breadth-first path cover via
+invariants (incl. NoStrandedSender) with spurious polls, close_this_sender and 3 senders, plus
+liveness under weak fairness; (2) TLC generator runs (breadth-first path cover via
 VIEW, plus -simulate walks of a larger configuration) print schedules with the model's
 predicted poll results; the harness replays them by polling the REAL futures by hand and TLC
 validates the recorded trace against the monitor; (3) seeded random longer schedules,
@@ -16,8 +16,8 @@ PROPS = ["C16"]
 ENGINE = "spec/Mpsc: monitor + implementation-shaped model (TLC exhaustive, liveness), TLC-generated poll interleavings replayed into the real unsync mpsc futures/Sink/Stream polled by hand with flag wakers, TLC trace validation of replayed and seeded random schedules"
 MANIFEST = {
     "C16": {
-        "text": "TLC exhaustively checks the implementation-shaped model of unsync::mpsc (buffer, send_wakers kept exactly as the SmallVec incl. duplicates and LIFO pop, recv_waker, Weak/Rc closure) against the C16 monitor (global FIFO, exactly once, capacity, consistent closure, and in every quiescent state nobody waits for something available) for all programs of 2 sender tasks x <=2 ops (send / Sink feed / try_send, drop / close_this_sender / keep) + receiver (optional close), capacities 0-2, every interleaving, with and without spurious re-polls, plus liveness under weak fairness; TLC-generated interleavings (path cover of the state graph + random walks of 3 senders) are replayed by hand-polling the real futures with flag-setting wakers, and seeded random longer schedules are recorded; TLC validates every recorded trace against the monitor.",
-        "note": "Bounded: <=3 sender tasks x <=2 ops in TLC, <=4 x <=4 in random runs; at most 1-2 spurious polls per behaviour in the exhaustive runs. One scheduler step = one poll of one op. Cancellation of a pending send future (dropping it) is not explored. Two genuine defects are listed as known findings (stale duplicate waker strands a sender; close_this_sender does not wake the receiver).",
+        "text": "TLC exhaustively checks the implementation-shaped model of unsync::mpsc (buffer, send_wakers kept exactly as the SmallVec incl. duplicates and drained by every successful receive, recv_waker, Weak/Rc closure) against the C16 monitor (global FIFO, exactly once, capacity, consistent closure, and in every quiescent state nobody waits for something available) for all programs of 2 sender tasks x <=2 ops (send / Sink feed / try_send, drop / close_this_sender / keep) + receiver (optional close), capacities 0-2, every interleaving, with and without spurious re-polls, plus liveness under weak fairness; TLC-generated interleavings (path cover of the state graph + random walks of 3 senders) are replayed by hand-polling the real futures with flag-setting wakers, and seeded random longer schedules are recorded; TLC validates every recorded trace against the monitor.",
+        "note": "Bounded: <=3 sender tasks x <=2 ops in TLC, <=4 x <=4 in random runs; at most 1-2 spurious polls per behaviour in the exhaustive runs. One scheduler step = one poll of one op. Cancellation of a pending send future (dropping it) is not explored. Two genuine defects found by this check (stale duplicate waker strands a sender; close_this_sender does not wake the receiver) are fixed in /repo and listed under 'fixed' in known_findings.d/sched.json; the model transcribes the fixed code.",
         "technique": "TLA+ spec model-checked with TLC + conformance (TLC behaviours replayed into the code; code traces validated by TLC)",
         "design_ref": "DESIGN.md §6.9, §9 item 5",
     },
@@ -25,14 +25,8 @@ MANIFEST = {
 
 SD = os.path.join(vlib.SPEC, "Mpsc")
 
-KNOWN_CLASS = {
-    "NoStrandedSender/stale-duplicate-waker": "mpsc/wake_sender/stale-duplicate-waker",
-    "NoRecvAsleepOnClosed/close_this_sender": "mpsc/close_this_sender/receiver-not-woken",
-}
-
-
 def _fp(rule):
-    return KNOWN_CLASS.get(rule, "mpsc/" + rule)
+    return "mpsc/" + rule
 
 
 def _set(xs):
@@ -110,37 +104,34 @@ def run(tier):
 
     # ---- TLC jobs (independent; run a few at a time) ------------------------------------
     jobs = {}
-    # (1a) no spurious polls, no close_this_sender: every C16 invariant must hold
-    jobs["mc_plain"] = dict(cfg=_cfg("mpsc_mc_plain.cfg", 2, [1, 2], ["send", "try"], 2, ["drop", "keep"], [1],
-                                     False, 0, False, ["C16Safety", "C16Wake", "ImplInv"]),
+    ALLINV = ["C16Safety", "C16Wake", "ImplInv"]
+    # (1a) 2 senders x <=2 ops, spurious polls, drop / close_this_sender (/ keep): every invariant
+    jobs["mc_two"] = dict(cfg=_cfg("mpsc_mc_two.cfg", 2, [0, 1, 2] if thorough else [1], ["send", "try"], 2,
+                                   ["drop", "close", "keep"] if thorough else ["drop", "close"], [1],
+                                   True, 2 if thorough else 1, False, ALLINV),
+                          workers=4, coverage=True)
+    # (1b) 3 senders x <=1 op, spurious polls (the stranding scenario needs 3 waker entries)
+    jobs["mc_three"] = dict(cfg=_cfg("mpsc_mc_three.cfg", 3, [1, 2] if thorough else [1], ["send", "try"], 1,
+                                     ["drop", "close", "keep"] if thorough else ["drop", "close"], [1],
+                                     True, 1, False, ALLINV),
                             workers=4, coverage=True)
-    # (1b) spurious polls + close_this_sender: safety and the wake rules that are not affected
-    #      by the two known defects must hold
-    jobs["mc_spur"] = dict(cfg=_cfg("mpsc_mc_spur.cfg", 2, [0, 1] if thorough else [1], ["send", "try"], 2, ["drop", "close"], [],
-                                    True, 2 if thorough else 1, False,
-                                    ["C16Safety", "ImplInv", "NoSenderWaitingOnClosed", "NoRecvAsleepOnItems"]),
-                           workers=4, coverage=True)
     # (1c) liveness under weak fairness of the due polls
     jobs["mc_live"] = dict(cfg=_cfg("mpsc_mc_live.cfg", 2, [1], ["send"] if not thorough else ["send", "try"], 2,
-                                    ["drop", "keep"], [1], False, 0, False,
-                                    ["C16Safety", "C16Wake", "ImplInv"], spec="FairSpec",
+                                    ["drop", "close", "keep"], [1], False, 0, False,
+                                    ALLINV, spec="FairSpec",
                                     properties=["SenderProgress", "RecvProgress"]),
                            workers=2, coverage=False)
-    if thorough:
-        jobs["mc_three"] = dict(cfg=_cfg("mpsc_mc_three.cfg", 3, [1, 2], ["send", "try"], 1, ["drop", "keep"], [1],
-                                         False, 0, False, ["C16Safety", "C16Wake", "ImplInv"]),
-                                workers=4, coverage=True)
     # (2) generators: path cover (VIEW NoHist, one worker so that the recorded schedules are the
     #     breadth-first tree paths)
     jobs["gen_a"] = dict(cfg=_cfg("mpsc_gen_a.cfg", 2, [0, 1, 2] if thorough else [1, 2], ALLK, 1,
                                   ["drop", "close", "keep"], [0, 1], True, 1, True,
-                                  ["C16Safety", "ImplInv", "Emit"], view=True),
+                                  ALLINV + ["Emit"], view=True),
                          workers=1, coverage=False)
     jobs["gen_b"] = dict(cfg=_cfg("mpsc_gen_b.cfg", 2, [1], ALLK if thorough else ["send", "feed"], 2, ["drop"], [],
-                                  True, 1, True, ["C16Safety", "ImplInv", "Emit"], view=True),
+                                  True, 1, True, ALLINV + ["Emit"], view=True),
                          workers=1, coverage=False)
     jobs["gen_sim"] = dict(cfg=_cfg("mpsc_gen_sim.cfg", 3, [0, 1, 2], ALLK, 2, ["drop", "close", "keep"], [2],
-                                    True, 2, True, ["C16Safety", "ImplInv", "Emit"]),
+                                    True, 2, True, ALLINV + ["Emit"]),
                            workers=1, coverage=False, simulate=3000 if thorough else 400, depth=60,
                            seed_arg=vlib.seed())
 
@@ -162,7 +153,7 @@ def run(tier):
                                  % (name, r.invariant, r.error_trace[-3000:]))
         if not name.startswith("gen_sim"):
             res.add_tlc(r, "MpscImpl " + name)
-    for name in [x for x in ("mc_plain", "mc_spur") if x in results]:
+    for name in [x for x in ("mc_two", "mc_three") if x in results]:
         vlib.require_coverage(results[name], ["SendTask", "RecvTask"])
 
     # ---- (2) spec -> code: replay ------------------------------------------------------
@@ -191,22 +182,6 @@ def run(tier):
     res.evaluations += summ["steps"]
     keys = {k for k in (_nontrivial_key(evs) for evs in by_case.values()) if k}
     res.distinct_nontrivial += len(keys)
-    # the model's own verdict per case vs TLC's verdict on the real trace
-    got = {}
-    for case, rule in viol:
-        got.setdefault(case, set()).add(rule)
-    model_pred, agree = 0, 0
-    for i, c in enumerate(cases):
-        pred = set(c.get("broken", []))
-        if pred:
-            model_pred += 1
-            if pred <= got.get(i + 1, set()):
-                agree += 1
-            else:
-                res.drift.append({"kind": "model predicts a broken rule the real channel does not show",
-                                  "case": i + 1, "model": sorted(pred), "impl": sorted(got.get(i + 1, set()))})
-    res.extra["model_predicted_breakages_replayed"] = model_pred
-    res.extra["model_predicted_breakages_confirmed_on_real_code"] = agree
     res.extra["replay_cases_by_generator"] = {n: sum(1 for c in cases if c["src"] == n)
                                               for n in ("gen_a", "gen_b", "gen_sim")}
     for dr in summ["drift"][:10]:
